@@ -268,6 +268,8 @@ end module inc_host
   integer :: {n#V1!}, x
   integer :: {i#V2!}
   integer :: a(5)
+  logical :: {is_true_flag#V3!}
+  {is_true_flag#V3} = .true. .and. .not. {is_true_flag#V3}
   {n#V1} = 2
   s = "abcdefghij"
   print *, "it's" // s(1:{n#V1}) // "it's n"
@@ -509,6 +511,8 @@ def check_references(ctx, sig_prefix="C06"):
                 for (f, li, a, b) in sorted(want):
                     got = refs_at(c, f, li, a)
                     ctx.count(("marked-ref", name, ent, f, li, a), True)
+                    if got == want and b - a > 2:
+                        got = refs_at(c, f, li, a + (b - a) // 2)       # the same question asked from the middle of the name
                     if got != want:
                         ctx.report("%s:%s" % (sig_prefix, tag), "find-references from %s:%d:%d does not return exactly the occurrences of the entity" % (f, li, a),
                                    {"kind": "counterexample", "input": {"files": c.plain, "at": [f, li, a]}, "implementation": sorted(got) if got is not None else None,
